@@ -64,6 +64,15 @@ REAL = {"T2P5US": 150, "T5US": 300, "T200US": 12000, "T1MS": 60000, "T2MS": 1200
 SCALED = {"T2P5US": 2, "T5US": 3, "T200US": 4, "T1MS": 5, "T2MS": 8, "T2P5MS": 26, "T3MS": 28}
 # Smaller still (handshake cannot complete): used for the leap-equals-iteration check only.
 SCALED_SMALL = {"T2P5US": 3, "T5US": 5, "T200US": 6, "T1MS": 7, "T2MS": 8, "T2P5MS": 10, "T3MS": 12}
+# Further constant sets a caller may give the class (configuration coverage): timer widths at and just past a
+# power of two (the timers are Signal(range(T3MS + 1))), and the 48 MHz values the source comments mention.
+SCALED_ROTATION = [
+    ("t3ms31", {"T2P5US": 2, "T5US": 3, "T200US": 4, "T1MS": 5, "T2MS": 8, "T2P5MS": 26, "T3MS": 31}),   # 5-bit, max
+    ("t3ms32", {"T2P5US": 2, "T5US": 3, "T200US": 4, "T1MS": 5, "T2MS": 8, "T2P5MS": 27, "T3MS": 32}),   # 6-bit, 2^k
+    ("t3ms33", {"T2P5US": 2, "T5US": 3, "T200US": 4, "T1MS": 5, "T2MS": 8, "T2P5MS": 27, "T3MS": 33}),  # 2^k + 1
+]
+MHZ48 = {"T2P5US": 120, "T5US": 240, "T200US": 9600, "T1MS": 48000, "T2MS": 96000, "T2P5MS": 120000,
+         "T3MS": 144000}
 SLACK_REAL = 3
 SLACK_SCALED = 2
 
@@ -83,9 +92,9 @@ def _cfg(name):
 # ---------------------------------------------------------------------------------------------
 # 2. DUT wrappers and recorder (executed inside worker processes)
 # ---------------------------------------------------------------------------------------------
-IN_NAMES = ["ls", "vbus", "disc", "fso", "lso", "busy"]
+IN_NAMES = ["ls", "vbus", "disc", "fso", "lso", "busy", "rst"]      # rst = reset of the usb clock domain
 OUT_FIELDS = [("br", 1), ("susp", 1), ("spd", 2), ("op", 2), ("term", 1), ("txv", 1), ("txd", 8)]
-BOOL_FIELDS = {"vbus", "disc", "fso", "lso", "busy", "br", "susp", "txv"}
+BOOL_FIELDS = {"vbus", "disc", "fso", "lso", "busy", "rst", "br", "susp", "txv"}
 PERIOD = 1e-6          # simulated clock period (the design only counts cycles)
 
 
@@ -107,11 +116,22 @@ def _find_fsm_state(frag):
     return found[0] if len(found) == 1 else None
 
 
+class _IgnoreVbusPlatform:
+    """What USBResetSequencer.elaborate looks at in a platform: `ignore_phy_vbus` and `device`."""
+    ignore_phy_vbus = True
+    device = "LFE5U-45F"
+
+
 def build_top(kind, consts):
-    """kind: 'seq' = USBResetSequencer alone, 'dev' = USBDevice(UTMI) around it.
-    consts: None = the class as it is in the tree; dict = subclass overriding the _CYCLES_* attributes."""
+    """kind: 'seq'        = USBResetSequencer alone (platform None),
+             'seq-novbus' = the same, elaborated for a platform with ignore_phy_vbus (vbus_connected := 1),
+             'dev'        = USBDevice around it, UTMI PHY able to do high speed (always_fs = False, 60 MHz),
+             'dev-fs'     = USBDevice(bus=UTMIInterface()) exactly as constructed (always_fs: FS only, 12 MHz).
+    consts: None = the class as it is in the tree; dict = subclass overriding the _CYCLES_* attributes.
+    The recorded inputs are the *effective* ones the property speaks of: vbus = TRUE under ignore_phy_vbus;
+    full_speed_only = TRUE, low_speed_only = FALSE for the always-FS device (device.py wiring)."""
     use_repo()
-    from amaranth import Elaboratable, Module, Signal, Cat
+    from amaranth import Elaboratable, Module, Signal, Cat, ClockDomain
     from amaranth.hdl import Fragment
     from luna.gateware.usb.usb2.reset import USBResetSequencer
 
@@ -122,10 +142,12 @@ def build_top(kind, consts):
 
     class Top(Elaboratable):
         def __init__(self):
-            self.cyc = Signal(32)
-            self.evt = Signal(16)
+            self.cyc = Signal(32, reset_less=True)       # the recorder's own registers survive a domain reset
+            self.evt = Signal(16, reset_less=True)
             self.fsm = None
-            if kind == "seq":
+            self.domain = ClockDomain("usb")
+            self.forced = {}                             # effective value of inputs the configuration overrides
+            if kind.startswith("seq"):
                 d = self.dut = seq_cls()
                 self.ins = {"ls": d.line_state, "vbus": d.vbus_connected, "disc": d.disconnect,
                             "fso": d.full_speed_only, "lso": d.low_speed_only, "busy": d.bus_busy}
@@ -139,8 +161,11 @@ def build_top(kind, consts):
                 self._devmod = devmod
                 utmi = UTMIInterface()
                 d = self.dut = devmod.USBDevice(bus=utmi)
-                d.always_fs = False              # a 60 MHz UTMI PHY that can do high speed
-                d.data_clock = 60e6
+                if kind == "dev":
+                    d.always_fs = False          # a 60 MHz UTMI PHY that can do high speed
+                    d.data_clock = 60e6
+                else:
+                    self.forced = {"fso": 1, "lso": 0}
                 d.bus_busy = Signal()
                 self.ins = {"ls": utmi.line_state, "vbus": utmi.session_end, "disc": d.connect,
                             "fso": d.full_speed_only, "lso": d.low_speed_only, "busy": d.bus_busy}
@@ -149,11 +174,15 @@ def build_top(kind, consts):
                              "op": utmi.op_mode, "term": utmi.term_select, "txv": utmi.tx_valid,
                              "txd": utmi.tx_data}
                 self.tx_ready = utmi.tx_ready
+            if kind == "seq-novbus":
+                self.forced = {"vbus": 1}
+            self.ins["rst"] = self.domain.rst
 
         def elaborate(self, platform):
             m = Module()
-            if kind == "seq":
-                frag = Fragment.get(self.dut, platform)
+            m.domains.usb = self.domain
+            if kind.startswith("seq"):
+                frag = Fragment.get(self.dut, _IgnoreVbusPlatform() if kind == "seq-novbus" else platform)
                 self.fsm = _find_fsm_state(frag)
                 m.submodules.dut = frag
             else:
@@ -167,7 +196,7 @@ def build_top(kind, consts):
             if self.fsm is not None:
                 parts.append(self.fsm)
             self.obs = Cat(*parts)
-            self.prev = Signal(len(self.obs))
+            self.prev = Signal(len(self.obs), reset_less=True)
             m.d.usb += [self.cyc.eq(self.cyc + 1), self.prev.eq(self.obs)]
             with m.If(self.obs != self.prev):
                 m.d.usb += self.evt.eq(self.evt + 1)
@@ -207,7 +236,7 @@ class Recorder:
             r["st"] = fsm.decoder(v).split("/")[0] if fsm.decoder else str(v)
         else:
             r["st"] = ""
-        if self.kind == "dev":
+        if self.kind.startswith("dev"):
             r["dev"] = True
         return r
 
@@ -218,7 +247,7 @@ class Recorder:
         last_outs = None
         last_evt = 0
         cur_in = {n: (1 if n == "ls" else 0) for n in IN_NAMES}
-        if self.kind == "dev":
+        if self.kind.startswith("dev"):
             ctx.set(top.tx_ready, 1)
 
         def emit_full(c, ins, outs):
@@ -227,6 +256,8 @@ class Recorder:
             if gap > 0:
                 trace.append({"dt": gap})
             rec = {n: (bool(ins[n]) if n in BOOL_FIELDS else int(ins[n])) for n in IN_NAMES}
+            for n, v in top.forced.items():
+                rec[n] = bool(v)
             rec.update(outs)
             trace.append(rec)
             upto = c
@@ -249,6 +280,15 @@ class Recorder:
                 ctx.set(top.ins[k], (0 if v else 1) if k in top.inv else int(v))
             emit_full(c, cur_in, self._decode(ctx.get(top.obs)))
             target = c + n
+            if cur_in["rst"]:                           # domain held in reset: every cycle is logged
+                for j in range(n):
+                    if j:
+                        emit_full(c, cur_in, self._decode(ctx.get(top.obs)))
+                    await ctx.tick("usb")
+                    c += 1
+                    tnow = c - 0.5
+                last_evt = ctx.get(top.evt)
+                continue
             while c < target:
                 wake = float(target - 1) if target >= 2 else 0.25     # inside cycle target-1
                 if wake > tnow:
@@ -307,7 +347,7 @@ def _worker(job):
 # (this is parameter substitution -- the durations T-1, T, T+1 stay exact).  TLC's ScriptSpec emits exactly
 # this shape (variable `seg`); the structured scenarios below use it too.
 SE0, J, K, SE1 = 0, 1, 2, 3
-CTL0 = {"vbus": True, "disc": False, "fso": False, "lso": False, "busy": False}
+CTL0 = {"vbus": True, "disc": False, "fso": False, "lso": False, "busy": False, "rst": False}
 
 
 def S(ls, k=(), d=0, **ctl):
@@ -430,6 +470,16 @@ def structured_scenarios(rng, tier):
     sc["hs_suspend_resume_restricted"] = to_high_speed() + hs_revert(J) + [
         S(J, (), 6, fso=True), S(K, (), 3, fso=True), S(J, (), 5)]
     sc["hs_reset_confused_line"] = to_high_speed() + hs_revert(K) + [S(SE0, "T2MS", 9), S(J, (), 4)]
+    # run-time change of the speed restriction with no bus reset afterwards: the idle polarity stays that of the
+    # speed the device operates at (3 ms of FS K is not idle although low_speed_only is now set; FS J still is)
+    sc["runtime_restriction_change"] = [
+        S(J, (), 9), S(K, "T3MS", 5, lso=True), S(J, (), 3, lso=True), S(J, "T3MS", 4, lso=True),
+        S(J, (), 6, lso=True), S(J, (), 4), S(K, (), 3), S(J, (), 5, fso=True, lso=True),
+        S(SE0, "T5US", 3, fso=True, lso=True), S(K, (), 6, fso=True, lso=True)]
+    # the usb clock domain is reset in mid-operation: in HS, while suspended, while chirping
+    sc["domain_reset"] = to_high_speed() + [
+        S(SE0, (), 2, rst=True), S(SE0, "T5US", 4), S(SE0, "T2MS", 2), S(SE0, (), 2, rst=True), S(J, (), 5),
+        S(J, "T3MS", 4), S(J, (), 1, rst=True), S(J, (), 6), S(K, (), 3), S(SE0, "T2P5US", 3), S(J, (), 4)]
     if tier != "quick":
         for t in range(24):
             n = r(2, 5)
@@ -524,6 +574,7 @@ def _mc_job(label, consts, slack, ls, toggles, leap=0, edges=False):
     for t, cname in zip(TOGGLES, ["VbusVals", "DiscVals", "FsoVals", "LsoVals", "BusyVals"]):
         rest = "TRUE" if t == "vbus" else "FALSE"
         sub[cname] = "{TRUE, FALSE}" if t in toggles else "{%s}" % rest
+    sub["RstVals"] = "{TRUE, FALSE}" if "rst" in toggles else "{FALSE}"
     sub["NAdv"] = leap if leap else 1
     if edges:
         cfg = tlc.render_cfg(_cfg("MCUsb2Reset_edges.cfg.tmpl"), sub)
@@ -571,8 +622,8 @@ def _scripts_from_tlc(seed, num, depth, parts=4):
                 raise tlc.TLCError("specification-only counterexample in ScriptSpec: %s" % b[-1][1].get("bad"))
             segs = [st["seg"] for act, st in b if act == "SLoad"][:-1]     # the last one may have been cut short
             if segs:
-                scripts.append([{"i": {k: sg["i"][k] for k in IN_NAMES}, "k": list(sg["k"]), "d": sg["d"]}
-                                for sg in segs])
+                scripts.append([{"i": dict({k: sg["i"][k] for k in IN_NAMES if k != "rst"}, rst=bool(sg.get("rst"))),
+                                 "k": list(sg["k"]), "d": sg["d"]} for sg in segs])
     return scripts
 
 
@@ -612,6 +663,7 @@ def check_C19(rep):
                _mc_job("vbus", SCALED, SLACK_SCALED, (0, 1, 2), ("vbus",)),
                _mc_job("disconnect", SCALED, SLACK_SCALED, (0, 1, 2), ("disc",)),
                _mc_job("busy", SCALED, SLACK_SCALED, (0, 1, 2), ("busy",)),
+               _mc_job("domain reset", SCALED, SLACK_SCALED, (0, 1, 2), ("rst",)),
                _mc_job("edges all inputs", SCALED, SLACK_SCALED, (0, 1, 2, 3), tuple(TOGGLES), edges=True),
                _mc_job("leaps (small scale)", SCALED_SMALL, SLACK_SCALED, (0, 1, 2, 3), ("fso", "vbus"), leap=15),
                _mc_job("leaps", SCALED, SLACK_SCALED, (0, 1, 2), (), leap=31)]
@@ -625,10 +677,12 @@ def check_C19(rep):
     witnesses = witness_scenarios()
     randoms = [random_scaled_scenario(rng, SCALED, 300) for _ in range(40 if quick else 400)]
     jobs = []          # (group, kind, consts, [(scenario, meta)], future)
+    group_consts = {}  # group -> (constants of the trace specification, Slack)
     ex = ProcessPoolExecutor(max_workers=nproc)
 
     def add(group, kind, consts, items):
         use = REAL if consts is None else consts
+        group_consts[group] = (use, SLACK_REAL if use["T3MS"] > 1000 else SLACK_SCALED)
         conc = [concretise(s, use, m.get("budget"))[0] for s, m in items]
         jobs.append((group, kind, consts, items, ex.submit(_worker, (kind, consts, conc))))
 
@@ -650,6 +704,17 @@ def check_C19(rep):
                                       ("hs_suspend_resume", "hs_suspend_reset_failed_fs_suspend_resume")])
     add("scaled", "seq", SCALED, named + wit)
     add("scaled-dev", "dev", SCALED, named)
+    # configuration coverage: platform.ignore_phy_vbus, the always-FS USBDevice, other constant sets
+    add("scaled-novbus", "seq-novbus", SCALED, named + metas("random", randoms[:10]))
+    add("scaled-devfs", "dev-fs", SCALED, named)
+    rot = SCALED_ROTATION if not quick else [SCALED_ROTATION[rep.seed % len(SCALED_ROTATION)]]
+    for tag, cset in rot:
+        add("scaled-" + tag, "seq", cset, named + wit)
+    if not quick:
+        for it in named:
+            if it[1]["name"] in ("fs_reset_boundaries", "hs_suspend_reset_failed_fs_suspend_resume", "restrictions",
+                                 "hs_reset_no_answer", "late_chirp_busy_phy", "domain_reset"):
+                add("real48", "seq", MHZ48, [it])
     for part in chunks(metas("random", randoms), 2 if quick else 8):
         add("scaled", "seq", SCALED, part)
 
@@ -670,8 +735,10 @@ def check_C19(rep):
         traces, cycles, _wall = fut.result()
         rep.add_eval(cycles)
         for (scn, meta), tr in zip(items, traces):
-            m = dict(meta, dut="USBResetSequencer" if kind == "seq" else "USBDevice",
-                     constants="USB2.0@60MHz" if consts is None else "scaled")
+            m = dict(meta, dut={"seq": "USBResetSequencer", "seq-novbus": "USBResetSequencer(platform.ignore_phy_vbus)",
+                                "dev": "USBDevice(HS-capable UTMI)", "dev-fs": "USBDevice(UTMI, always_fs)"}[kind],
+                     constants="USB2.0@60MHz" if consts is None else
+                     ",".join(str(consts[k]) for k in NAMES))
             groups.setdefault(group, []).append((tr, m))
     ex.shutdown()
     stamps["replayed"] = round(time.time() - t_start, 1)
@@ -692,9 +759,7 @@ def check_C19(rep):
     with tlc.scratch("u2r-info-") as d:
         def validate(group):
             items = groups[group]
-            real = group.startswith("real")
-            cfg = tlc.render_cfg(_cfg("Usb2ResetTrace.cfg.tmpl"),
-                                 spec_constants(REAL if real else SCALED, SLACK_REAL if real else SLACK_SCALED))
+            cfg = tlc.render_cfg(_cfg("Usb2ResetTrace.cfg.tmpl"), spec_constants(*group_consts[group]))
             info_file = os.path.join(d, "info-%s.json" % group)
             for idx, (_t, m) in enumerate(items):
                 m["idx"] = idx
